@@ -1,12 +1,13 @@
 import QcelVerif.Model.Orient
 import QcelVerif.Model.OrientApprox
+import QcelVerif.Model.OrientSrc
 import QcelVerif.Lib.Proto
 /-!
 Line-protocol driver for the C16 model, executed at `K = ℚ`.
 
 input :  `orient|d|m₁ … mₙ|x₁ y₁ z₁ … xₙ yₙ zₙ|v00 v01 v02 v10 … v22|l0 l1 l2`
          (every number an exact rational `p/q` of the double the implementation saw; `d` = geometry_noise)
-output:  `ok|K|Y|S|R|T|B`
+output:  `ok|K|Y|S|R|T|B|SRC`
            K : 3n integers, `float_prep(·, d)` of the model geometry in units of 10^-d
            Y : 3n integers, `⌊y·10^20⌋` of the model geometry before rounding
            S : the three column signs and, per column, the 0-based index of the deciding atom (-1: none)
@@ -16,7 +17,14 @@ output:  `ok|K|Y|S|R|T|B`
                `S = Σ|mᵢ||xᵢ-c|²`, `B_off = r₃ + r₁·S`, `B_diag = r₃ + (3r₂ + r₁)·S` with `r` the exact residuals of `R`;
                `Props/C16Approx.lean: inertia_diagonal_driver` proves that the inertia tensor of the model's oriented
                geometry (the exact `Y`) is within `B_off` (off-diagonal) / `B_diag` (diagonal, of `l`) of `diag l`
-         `err ZeroDivision` / `err Shape`;  anything unparsable: `bad-op`
+           SRC : THREE-WAY — the code regenerated from molecule.py on this run (`Gen/OrientSrc.lean`, evaluated by
+               `Model/OrientAst.lean` at ℚ through `Model/OrientSrc.lean`) against the hand model, exactly:
+               `src c t r g n p` with 1/0 for: centring vector = `com`, tensor handed to eigh = `orientTensor`, geometry after
+               `np.dot(new_geometry, evecs)` = `rotate (center …) V`, returned geometry = `orientCore …`, `geom_noise` = `noiseQ`, the source's `float_prep(·, d)` of every entry of the
+               returned geometry = `floatPrepK d · / 10^d`;
+               when the returned geometry differs: `;` + the source-derived `K` (or `err <class>`)
+         `err ZeroDivision` / `err Shape` (when the source-derived function refuses with the same class; otherwise
+         `err …|src=<what the source-derived function returned>`);  anything unparsable: `bad-op`
 -/
 open QcelVerif QcelVerif.Orient QcelVerif.Proto
 
@@ -38,6 +46,26 @@ def decider (col : List Rat) : Int :=
   | some i => i
   | none => -1
 
+def p3 (p : V3 Rat) : OrientAst.P3 Rat := ⟨p.x, p.y, p.z⟩
+def t3 (A : M3 Rat) : OrientAst.T3 Rat := ⟨A.xx, A.xy, A.xz, A.yx, A.yy, A.yz, A.zx, A.zy, A.zz⟩
+
+def eqOk {α : Type} [DecidableEq α] (r : Except OrientAst.Err α) (a : α) : Bool :=
+  match r with
+  | .ok b => decide (b = a)
+  | .error _ => false
+
+def errName : OrientAst.Err → String
+  | .zeroDivision => "ZeroDivision"
+  | .shape => "Shape"
+  | .index => "Index"
+
+def b01 (b : Bool) : String := if b then "1" else "0"
+
+/-- what the source-derived function returned, for the error lines -/
+def srcShow {α : Type} : Except OrientAst.Err α → String
+  | .ok _ => "ok"
+  | .error e => "err " ++ errName e
+
 def stepC16 (line : String) : String :=
   match splitOnChar line '|' with
   | [op, d, ms, xs, v, l] =>
@@ -45,9 +73,18 @@ def stepC16 (line : String) : String :=
     match parseNat? d, parseRats? ms, (parseRats? xs).bind toV3s, parseRats? v, parseRats? l with
     | some d, some ms, some xs, some [v00, v01, v02, v10, v11, v12, v20, v21, v22], some [l0, l1, l2] =>
       let V : M3 Rat := ⟨v00, v01, v02, v10, v11, v12, v20, v21, v22⟩
+      let pxs := xs.map p3
+      let srcG := OrientSrc.srcOrient ms pxs (t3 V)
+      let srcT := OrientSrc.srcTensor ms pxs
       match orientCore noiseQ ms xs V with
-      | .error .zeroDivision => "err ZeroDivision"
-      | .error .shape => "err Shape"
+      | .error .zeroDivision =>
+        match srcG, srcT with
+        | .error .zeroDivision, .error .zeroDivision => "err ZeroDivision"
+        | _, _ => s!"err ZeroDivision|src={srcShow srcG},{srcShow srcT}"
+      | .error .shape =>
+        match srcG, srcT with
+        | .error .shape, .error .shape => "err Shape"
+        | _, _ => s!"err Shape|src={srcShow srcG},{srcShow srcT}"
       | .ok g =>
         let ks := (floatPrepGeom d g).foldr (fun k acc => k.1 :: k.2.1 :: k.2.2 :: acc) []
         let ys := g.foldr (fun p acc => scaledFloor 20 p.x :: scaledFloor 20 p.y :: scaledFloor 20 p.z :: acc) []
@@ -61,7 +98,26 @@ def stepC16 (line : String) : String :=
         let Ts := s!"{scaledFloor 12 T.xx} {scaledFloor 12 T.xy} {scaledFloor 12 T.xz} {scaledFloor 12 T.yy} {scaledFloor 12 T.yz} {scaledFloor 12 T.zz}"
         let B := inertiaBoundsOf r (absS ms (center ms xs))
         let Bs := s!"{scaledCeil 30 B.1} {scaledCeil 30 B.2.1} {scaledCeil 30 B.2.2}"
-        s!"ok|{" ".intercalate (ks.map toString)}|{" ".intercalate (ys.map toString)}|{S}|{R}|{Ts}|{Bs}"
+        let cOk := eqOk (OrientSrc.srcCentre ms pxs) (p3 (com ms xs))
+        let tOk := eqOk srcT (t3 T)
+        let rOk := eqOk (OrientSrc.srcRotated ms pxs (t3 V)) (g1.map p3)
+        let gOk := eqOk srcG (g.map p3)
+        let nOk := decide (OrientSrc.srcNoiseQ = noiseQ)
+        let extra :=
+          if gOk then "" else
+          match srcG with
+          | .error e => ";err " ++ errName e
+          | .ok g' =>
+            let ks' := (floatPrepGeom d (g'.map (fun p => (⟨p.x, p.y, p.z⟩ : V3 Rat)))).foldr (fun k acc => k.1 :: k.2.1 :: k.2.2 :: acc) []
+            ";" ++ " ".intercalate (ks'.map toString)
+        -- float_prep as read from the source, entry by entry, on the model geometry: `k / 10^d`
+        let tenD : Rat := (10 : Rat) ^ d
+        let pOk := g.all (fun q =>
+          decide (OrientSrc.srcPrep d q.x = (floatPrepK d q.x : Rat) / tenD) &&
+          decide (OrientSrc.srcPrep d q.y = (floatPrepK d q.y : Rat) / tenD) &&
+          decide (OrientSrc.srcPrep d q.z = (floatPrepK d q.z : Rat) / tenD))
+        let SRC := s!"src {b01 cOk} {b01 tOk} {b01 rOk} {b01 gOk} {b01 nOk} {b01 pOk}{extra}"
+        s!"ok|{" ".intercalate (ks.map toString)}|{" ".intercalate (ys.map toString)}|{S}|{R}|{Ts}|{Bs}|{SRC}"
     | _, _, _, _, _ => "bad-op"
   | _ => "bad-op"
 
